@@ -26,14 +26,15 @@ RTO(i) == Cfg(i).electionTick + ((i - 1) % Cfg(i).electionTick)
 Cnt(name) == MapGet(hist.cnt, name, 0)
 May(name, i) == i \in Actors[name] /\ Cnt(name) < Bound[name]
 
-MkAct(name, i) == [NoAct EXCEPT !.name = name, !.node = i, !.inc = app[i].inc, !.pre = node[i], !.preDisk = disk[i]]
+MkAct(name, i) == [NoAct EXCEPT !.name = name, !.node = i, !.inc = app[i].inc, !.pre = node[i], !.preDisk = disk[i],
+                                 !.preSD = app[i].sd]
 
 \* common tail of every action on node i
 Emit(i, a, n2, d2, p2, net2) ==
   LET n3 == Norm(Cfg(i), n2, d2) IN
   /\ node' = [node EXCEPT ![i] = n3]
   /\ disk' = [disk EXCEPT ![i] = d2]
-  /\ app' = [app EXCEPT ![i] = p2]
+  /\ app' = [app EXCEPT ![i] = [p2 EXCEPT !.sd = d2]]
   /\ net' = net2
   /\ act' = a
   /\ hist' = HistNext(hist, a, i, node[i], n3, disk[i], d2)
@@ -58,7 +59,7 @@ Init ==
          /\ disk = disks
          /\ app = [i \in Node |-> IF MCCl.nodes[i].initial
                                   THEN [IdleApp EXCEPT !.created = TRUE, !.appliedDurable = BootIndex,
-                                                       !.lastConfIdx = BootIndex, !.appConf = MCCl.conf]
+                                                       !.lastConfIdx = BootIndex, !.appConf = MCCl.conf, !.sd = BootDisk]
                                   ELSE IdleApp]
          /\ hist = BootHist(InitHist, SortedSeq({i \in Node : MCCl.nodes[i].initial}), 1, nodes, disks)
   /\ net = <<>>
@@ -194,7 +195,7 @@ RECURSIVE ApplyEntsK(_, _, _, _, _, _)
 ApplyEntsK(c, n, d, ents, k, rto) ==
   IF k > Len(ents) THEN n
   ELSE LET e == ents[k]
-           n1 == IF e.type = "N" THEN n ELSE ApplyConfChange(c, n, d, ValidatedCC(n, e.cc), rto)
+           n1 == IF e.type = "N" \/ ~CCApplicable(n, e.cc) THEN n ELSE ApplyConfChange(c, n, d, e.cc, rto)
        IN  ApplyEntsK(c, n1, d, ents, k + 1, rto)
 AppAfterApply(p, n2, ents) ==
   IF ents = <<>> THEN p
